@@ -38,6 +38,10 @@ CLAIMED = {
          "Machine-checked theorems, for EVERY fault pattern (a list of booleans consumed one per check point: any number of faults in setup, body, teardown): the first enter runs the init sequence in order then the hook, or unwinds every entered step in reverse order exactly once and propagates; nested enters/exits only count; the last exit tears everything down in reverse whatever raises; a failed power-on still powers off, a failed power_check does not power on; after any program the counter is 0, the stack empty, begins = ends and power-ons = power-offs; power-off sits after the later-started steps and before the connector. Tied to /repo by differential runs over compositions x programs x (no / every single / pairs / random) faults against real machine classes built with type(), plus an independent reference interpreter written from the property text.",
          "Trusted: Coq kernel + vm_compute; hand-written model coq/Machine.v; CPython's contextlib semantics as modelled; the harness' instrumented mixins; the documented stage order is tied by correspondence, not proved about Python's MRO.",
          "DESIGN.md 8/C13"),
+ "C14": ("Coq proof of the truth invariant (managers' view = trace; trace well-formedness) by mutual induction over teardown/leave/enter and structural induction over request programs, for every fault pattern + correspondence with a real tbot.Context using tbot's own from_context chains",
+         "Machine-checked theorems over an executable model of InstanceManager/Context: in every reachable state and for every fault pattern the managers' view of what is alive equals the truth, the trace is well formed (never two live instances of a class, teardown only of the live one hence at most once, hand-over only of the live instance), a teardown always clears the manager and never revives anything, and under keep_alive nothing is alive after the outermost context is left, whatever raised. Partial: leak-freedom without keep_alive and dependants-first ordering are decided by correspondence + an independent trace oracle only; the ordering clause is refuted under machine faults with reset_on_error (known finding D14, theorem C14_dependants_first_refuted).",
+         "Trusted: Coq kernel + vm_compute; hand-written model coq/Context.v (machine = one init and one teardown check point; chain-like dependency table); the correspondence harness with instrumented dummy classes. Known finding: C14:machine-fault-resets-shared-prerequisite-under-reset_on_error.",
+         "DESIGN.md 8/C14"),
 }
 NOT_YET = "check not built yet (work in progress; will be claimed once its Coq theorems and correspondence check exist)"
 
